@@ -53,7 +53,11 @@ def whileFuel {σ ρ : Type} : Nat → σ → (σ → Bool) → (σ → Step σ 
 
 /-! ## integers -/
 
-def quo (a b : Int) : Int := Int.tdiv a b
+/-- Go's `/`: truncating division on ints; a float carrier (binary32, `Model/C16F32.lean`) brings its own instance -/
+class GoQuo (α : Type) where
+  quo : α → α → α
+export GoQuo (quo)
+instance : GoQuo Int := ⟨Int.tdiv⟩
 def rem (a b : Int) : Int := Int.tmod a b
 
 /-! ## `+` on ints and strings, `len`, strings -/
